@@ -12,7 +12,7 @@ from matched_markets.methodology.tbrmmdesignparameters import TBRMMDesignParamet
 ID = 'C08'
 LEVEL = 'model_checking'
 RULE = ('Engine B: explicit-state BFS to closure over a real TBRMMDiagnostics object. Alphabet: x := X_i (6 | 9 series '
-        'incl. a constant one that makes the regression fail, series of 8 / 16 points and one series that differs from another by less than 1e-4), x := None, y := Y_j (3 | 5 series of 8, 12 and 16 points; a control series of the wrong length must be rejected and leave the state unchanged), and one read per '
+        'incl. a constant one that makes the regression fail, series of 8 / 16 points and one series that differs from another by less than 1e-6), x := None, y := Y_j (3 | 5 series of 8, 12 and 16 points; a control series of the wrong length must be rejected and leave the state unchanged), and one read per '
         'public derived quantity (corr, required_impact, pretestfit, bbtest, dwtest, aatest, corr_test, tests_ok, '
         'tbrfit and estimate_required_impact each with two argument values, x, y), for 3 parameter objects (one with a window so short that the A/A test is '
         'undefined). State = byte-exact fingerprint of ALL instance attributes + entry counts of the identity-keyed lru caches + model (id of current x, id of current y); successor states are obtained by REPLAYING the history on a fresh real object (no deep copies). '
@@ -38,7 +38,7 @@ X = {1: 2 * t + np.array([1, 0, 2, 0, 1, 1, 0, 2, 1, 0, 2, 0.]),
      6: 2 * t + np.array([0, 3, 0, 3, 1, 0, 0, 0, 2, 1, 0, 0.]),   # with Y1: all four tests pass
      7: 2 * np.arange(16.) + np.array([1, 0, 2, 1, 0, 0, 3, 1, 0, 2, 1, 1, 0, 2, 0, 1.]),   # 16 points (for Y4)
      8: np.array([4, 2, 3, 6, 5, 8, 6, 9.]),                                                 # 8 points (for Y5)
-     9: 2 * t + np.array([1, 0, 2, 0, 1, 1, 0, 2, 1, 0, 2, 0.]) + 5e-5 * (t % 3)}           # X1 up to 1e-4: "almost the same" series
+     9: 2 * t + np.array([1, 0, 2, 0, 1, 1, 0, 2, 1, 0, 2, 0.]) + 1e-7 * (t % 3)}           # X1 up to 2e-7 (inside numpy's default closeness tolerance): "almost the same" series
 PARS = {'default': dict(n_test=3, iroas=1.0), 'aa-undefined': dict(n_test=10, iroas=1.0),
         'strict': dict(n_test=2, iroas=2.0, min_corr=0.95, sig_level=0.95)}
 READS = ['corr', 'required_impact', 'pretestfit', 'bbtest', 'dwtest', 'aatest', 'corr_test', 'tests_ok',
